@@ -384,8 +384,8 @@ func famInts(b *base, emit func(candCase)) {
 	r, s := b.R, b.S
 	max := sub(two256, one)
 	repl := func(name string, v *big.Int) {
-		emit(b.cand("r:=" + name).withRS(v, s))
-		emit(b.cand("s:=" + name).withRS(r, v))
+		emit(b.cand("r:="+name).withRS(v, s))
+		emit(b.cand("s:="+name).withRS(r, v))
 	}
 	repl("0", bi(0))
 	repl("1", bi(1))
@@ -452,7 +452,7 @@ func famCross(b *base, seed uint64, emit func(candCase)) {
 		if c.Equal(o.p, b.Pub) || o.p.Inf {
 			continue
 		}
-		x := b.cand("other-" + o.name).withRS(b.R, b.S)
+		x := b.cand("other-"+o.name).withRS(b.R, b.S)
 		x.PubX, x.PubY = ref.Bytes32(o.p.X), ref.Bytes32(o.p.Y)
 		emit(x)
 		if b.msgMode() {
